@@ -628,6 +628,10 @@ def install_pure_ops(Executor):
         if isinstance(a, SeqV) and isinstance(b, SeqV):
             return z3.And(a.n == b.n, sym.forall_int(z3.IntVal(0), a.n, lambda i: v_eq(a.at(i), b.at(i))))
         if isinstance(a, MapV) and isinstance(b, MapV):
+            if sym.BOUND is not None:
+                return z3.And(*[z3.Implies(present, z3.And(a.dom[t] == b.dom[t],
+                                                           z3.Implies(a.dom[t], v_eq(a.at(t), b.at(t)))))
+                                for present, t in self.bound_ref_pool(st)])
             k = z3.Const(f'mk{next(sym._counter)}', Ref)
             return z3.ForAll([k], z3.And(a.dom[k] == b.dom[k], z3.Implies(a.dom[k], v_eq(a.at(k), b.at(k)))))
         return orig_eq(self, a, b, st)
